@@ -373,7 +373,7 @@ def _command_is_signed(command: SmtLibCommand) -> bool:
                     singed = arg[1]
                     if not isinstance(singed, bool):
                         raise PysmtValueError(":signed annotation to a command must be a bool, %s is not" % str(singed))
-                break
+                    break
     return singed
 
 
